@@ -115,6 +115,10 @@ CASES = [
      "[tuple(hye) for hye in hypergraph.get_edges()]", 0, ["binary_incidence_matrix@mapping"], "ensures:entries"),
     ("inverse mapping: forward table returned", "hypergraphx/utils/labeling.py", "dict(zip(mapping.transform(mapping.classes_), mapping.classes_))",
      "dict(zip(mapping.classes_, mapping.transform(mapping.classes_)))", 0, ["get_inverse_mapping"], "ensures:dom"),
+    ("contagion: the neighbour's NEW state is read (asynchronous update)", "hypergraphx/dynamics/contagion.py", "if I_old[neigh] == 1 and np.random.random() < beta:",
+     "if I_new[neigh] == 1 and np.random.random() < beta:", 0, ["simplicial_contagion"], "loop1:preserved:done"),
+    ("contagion: the count is written one entry too early", "hypergraphx/dynamics/contagion.py", "        numberInf[t] = Infected", "        numberInf[t - 1] = Infected", 0,
+     ["simplicial_contagion"], "loop0:preserved:count"),
     # ---- hygiene-only and behaviour-preserving changes: nothing may fail
     ("binary incidence: an extra unused query", "hypergraphx/linalg/linalg.py", "    encoder = hypergraph.get_mapping()\n    hye_list", "    encoder = hypergraph.get_mapping()\n    shape0 = hypergraph.num_nodes()\n    hye_list", 0,
      ["binary_incidence_matrix@mapping", "binary_incidence_matrix"], None),
